@@ -423,7 +423,7 @@ class Check:
                     "evaluations": 0, "distinct_nontrivial": 0, "rule": "", "samples": [],
                     "traces_validated_against_impl": 0, "disagreements_checked": 0}
         self.assumptions = []
-        self.known = [k for k in load_known() if k.get("property") == prop]
+        self.known = [k for k in load_known() if k.get("property") == prop or prop in k.get("also", [])]
         self.notes = []
         os.makedirs(os.path.join(VERIF, "replays"), exist_ok=True)
         for f in os.listdir(os.path.join(VERIF, "replays")):
